@@ -275,6 +275,22 @@ def check_single(case, ctx):
         # totality: the plain LU solver must return a result
         X = linalg.lu_solve(A, B)
         ctx.check(is_finite_matrix(X), "lu_solve-not-total", "lu_solve returned %r on a %s matrix" % (X, case["cls"]))
+    if case["cls"] == "sdd" and D != 0:
+        # answers do not depend on earlier calls: the same list object, edited in place, is solved again
+        work = [list(r) for r in A]
+        linalg.lu_solve(work, B)
+        for j in range(n):
+            work[0][j] = work[0][j] * 2.0
+        work[n - 1][n - 1] = work[n - 1][n - 1] * 4.0          # still strictly diagonally dominant
+        X2 = linalg.lu_solve(work, B)
+        LU2 = exact_lu(work)
+        ctx.check(is_finite_matrix(X2) and LU2 is not None, "lu_solve-not-total", "lu_solve failed on an edited diagonally dominant matrix")
+        residual_ok(ctx, "lu_solve-after-inplace-edit", "lu_solve on a matrix object that was edited in place after an earlier solve", work, X2, B, LU2)
+        inv2 = linalg.matrix_inverse(work)
+        mp2, p2 = linalg.matrix_pivot(work)
+        LUp = exact_lu(mp2)
+        if LUp is not None:
+            residual_ok(ctx, "inverse-after-inplace-edit", "matrix_inverse after an in-place edit", mp2, inv2, p2, LUp)
 
 
 # ------------------------------------------------------------------------------------------------ histories
